@@ -23,19 +23,42 @@ def random_programs(n, seed, **kw):
     return [mp.gen_random(seed * 1000003 + i, **kw) for i in range(n)]
 
 
+BATCH = 6000      # programs per TLC run (bounds the memory and the duration of a single run)
+
+
 def explore(progs, module='MiniPy', spec='Spec', invariants=('Emit',), env=None, bounds=None, name=None,
-            workers=16, timeout=1500, workdir=None):
-    """Run TLC over all executions of all programs. Returns (TLCResult, workdir)."""
+            workers=16, timeout=1500, workdir=None, claims=None):
+    """Run TLC over all executions of all programs (in batches). Returns (TLCResult, workdir).
+
+    claims: per-program claim records for the monitors (written next to each batch as CLAIM_FILE)."""
     wd = workdir or common.scratch('mp_%s_%d' % (name or module, os.getpid()))
-    pf = os.path.join(wd, 'progs.json')
-    with open(pf, 'w') as f:
-        json.dump(progs, f)
-    e = dict(PROG_FILE=pf)
-    e.update(env or {})
-    res = tlc.run_tlc(module, cfg_text(spec, invariants, bounds), env=e, workers=workers, timeout=timeout,
-                      name=name or module)
-    res.require_ok(module)
-    return res, wd
+    total = None
+    for lo in range(0, max(len(progs), 1), BATCH):
+        part = progs[lo:lo + BATCH]
+        pf = os.path.join(wd, 'progs.json')
+        with open(pf, 'w') as f:
+            json.dump(part, f)
+        e = dict(PROG_FILE=pf)
+        e.update(env or {})
+        if claims is not None:
+            cf = os.path.join(wd, 'claims.json')
+            with open(cf, 'w') as f:
+                json.dump(claims[lo:lo + BATCH], f)
+            e['CLAIM_FILE'] = cf
+        res = tlc.run_tlc(module, cfg_text(spec, invariants, bounds), env=e, workers=workers, timeout=timeout,
+                          name=name or module)
+        res.require_ok(module)
+        for r in res.json:
+            if isinstance(r, dict) and 'pid' in r:
+                r['pid'] += lo
+        if total is None:
+            total = res
+        else:
+            total.generated += res.generated
+            total.distinct += res.distinct
+            total.json.extend(res.json)
+            total.wall_s += res.wall_s
+    return total, wd
 
 
 def _validate_chunk(args):
